@@ -77,8 +77,42 @@ AVOID4 = {
  "C19": "safe_printf fit test; type letter from mode bits",
  "C20": "realloc result published late in extend_raw_data; path decoder not freeing the old path",
 }
+AVOID5 = {
+ "C01": "copy_from_history range guard; ring pre-fill of half the ring (both -lk7- only)",
+ "C02": "ring pre-fill of the last 60 bytes; parent pointer of the last tree slot in init_tree",
+ "C03": "lz5 end-of-input handling of a literal without a byte; zero-length request setting decoder_failed",
+ "C04": "pm2 window pre-fill dropped; build_tree capped at 16-bit codes",
+ "C05": "level-1 extended header start offset with padded base header; all-caps folding before the symlink split",
+ "C06": "timestamps >= 2^31 not applied; empty MacBinary member keeps its envelope",
+ "C07": "decode although the output file could not be created; lha_reader_check shortcut for unknown methods",
+ "C08": "use-after-free in the directory-stack release loop; double free of the inner decoder",
+ "C09": "lh1 right-neighbour bound in increment_node_freq; pm2 copy_decode range check",
+ "C10": "second file-name header skipping the '/' rewrite; utime on a pre-existing link when no decoder exists",
+ "C11": "file-name buffer reuse; collapse_path skipped for name-less directories",
+ "C12": "16-bit length in check_common_crc; Amiga -lh0- to -lhd- fix-up without the length test",
+ "C13": "refcount set late so failed headers leak; declared length 0 treated as unlimited",
+ "C14": "32-bit remaining-length clamp; total_blocks hoisted to file scope",
+ "C15": "end of archive not sticky; stale errno after fseek",
+ "C16": "int countdown in the read-and-discard skip; case-insensitive signature match",
+ "C17": "(NULL,0) resetting the state; pre-fetch reading one byte past the end",
+ "C18": "unknown OS byte printed raw; plain printf on the Skipped line",
+ "C19": "glob match on a name cut to 255 bytes; stored name used as a format string",
+ "C20": "current header not released when eof is set; decoder block lost when init fails",
+}
+R5_EXTRA = {
+ "decoder": "Prefer rarely executed paths inside the decoders and the shared bit reader / tree builder: behaviour exactly at table or tree rebuild points, at maximum-length codes, when the window wraps exactly at a block or buffer boundary, when the bit buffer is refilled at a 32-bit boundary, when the input ends in the middle of a symbol or field, when a read request is exactly the internal block size, and data-dependent shortcuts (a fast path taken only for particular byte patterns).",
+ "cli": "Prefer defects in how the command-line tool (src/) or the library's extraction code deals with its environment: results and errno values of mkdir/open/chmod/utime/symlink/unlink (EEXIST, EACCES, ENOTDIR, ENAMETOOLONG), short or failing writes to the output file or to standard output, the process umask, objects of an unexpected kind already present at an output path (directory, FIFO, symlink to a directory), descriptors or FILE streams not closed on some path (visible with a low descriptor limit and many members), very long output paths, standard input at end-of-file when a prompt is answered, and differences between the spellings of a command (with and without the leading '-').",
+ "lib": "Prefer defects on error and cleanup paths of the library (a callback reporting an error or a short result at a particular point, an allocation or read failing midway through a multi-step operation, a header being rejected after part of it was processed), in the handling of rarely used header variants (OS-9, Amiga, MacLHA, LHARK, level 0 extended area, Windows timestamps, 64-bit size headers, unknown extended header types, zero-length fields), and in interactions between two extended headers or between a header field and the member's method.",
+}
+KIND = {"C01": "decoder", "C02": "decoder", "C03": "decoder", "C04": "decoder", "C09": "decoder", "C14": "decoder", "C17": "decoder",
+        "C06": "cli", "C07": "cli", "C10": "cli", "C18": "cli", "C19": "cli", "C13": "cli", "C16": "lib",
+        "C05": "lib", "C08": "lib", "C11": "lib", "C12": "lib", "C15": "lib", "C20": "lib"}
 extra = ""
-if len(sys.argv) > 3 and sys.argv[3] == "r4":
+if len(sys.argv) > 3 and sys.argv[3] == "r5":
+    extra = ("\n\nIMPORTANT: changes at the following sites/mechanisms have already been collected for this property; produce changes that hit DIFFERENT functions and mechanisms: "
+             + "; ".join(x for x in (AVOID.get(pid, ""), AVOID3.get(pid, ""), AVOID4.get(pid, ""), AVOID5.get(pid, "")) if x) + ". " + R5_EXTRA[KIND[pid]]
+             + " Name your output directories " + pid + "-9 and " + pid + "-10.")
+elif len(sys.argv) > 3 and sys.argv[3] == "r4":
     extra = ("\n\nIMPORTANT: changes at the following sites/mechanisms have already been collected for this property; produce changes that hit DIFFERENT functions and mechanisms: "
              + AVOID.get(pid, "") + "; " + AVOID3.get(pid, "") + "; " + AVOID4.get(pid, "") + ". Prefer defects that an exhaustive-but-small test harness would plausibly overlook because they only manifest with: (a) large counts or sizes (hundreds of members, values crossing 8/16/32-bit or buffer-size boundaries, long runs), (b) unusual but legal usage patterns (stopping early, querying accessors midway, zero-length requests, continuing after a failure was reported, several archives or decoders in one process, a different order of otherwise independent calls), (c) unusual but valid encodings (redundant or padded fields, minimal or maximal field widths, optional parts present twice or in an unusual order, rarely used OS types or header levels), or (d) the interaction of two features that are each tested alone. Name your output directories " + pid + "-7 and " + pid + "-8.")
 elif len(sys.argv) > 3 and sys.argv[3] == "r3":
